@@ -1463,3 +1463,12 @@ Proof.
     + pose proof (next_run ws l0 mux0) as Hn. cbn [mux0 m_next] in Hn. fold s in Hn.
       assert (1 + N.of_nat (length l0) < two64) by lia. specialize (Hn H). lia.
 Qed.
+
+(** a WebSocket client without a subscriber: same calls, nothing delivered *)
+Lemma C04_holds_nosub_lemma cs : c04_wf cs = true -> ok_C04_nosub cs (model_C04_nosub cs) = true.
+Proof.
+  intros H. pose proof (C04_holds_lemma cs H) as K. unfold ok_C04 in K.
+  apply andb_prop in K as [K K3]. apply andb_prop in K as [K1 _].
+  unfold ok_C04_nosub, model_C04_nosub, drop_sub. cbn [o_out o_sub o_ids].
+  rewrite K1, K3. reflexivity.
+Qed.
